@@ -12,7 +12,7 @@ from vf.ref import execute as refx
 
 ID = "C07"
 BOUNDS = {
-    "quick": "10 subscription documents x event sequences of length 0..2 over 5 payload shapes x 5 source kinds (async generator, custom iterator with / without aclose, aclose that raises, awaitable-returning resolver) x source failure at every position x per-event resolver sync/async x all interleavings of source / pull / resolver gates x early release <=1; 7 creation-failure modes",
+    "quick": "10 subscription documents x event sequences of length 0..2 over 5 payload shapes x 6 source kinds (async generator, custom iterator with / without aclose, aclose that raises, awaitable-returning resolver, iterable that is not its own iterator) x with / without a never-firing abort signal x with / without a subscription root value x source failure at every position x per-event resolver sync/async x all interleavings of source / pull / resolver gates x early release <=1; 7 creation-failure modes",
     "thorough": "event sequences of length 0..4, early release <=2",
 }
 RULE = (
@@ -58,7 +58,7 @@ def payloads():
     ]
 
 
-SOURCE_KINDS = ["agen", "iter_aclose", "iter_plain", "awaitable_agen", "iter_aclose_raises"]
+SOURCE_KINDS = ["agen", "iter_aclose", "iter_plain", "awaitable_agen", "iter_aclose_raises", "iterable_fresh"]
 CREATION_FAILURES = ["raises", "async_raises", "non_iterable", "returns_exception", "unknown_field", "bad_variable", "awaitable_non_iterable"]
 
 
@@ -86,6 +86,9 @@ def scenario_map(c, schema, doc, text, source_kind, tier):
     kinds = [c.choose(len(pl), f"payload{i}", cost=0) for i in range(n)]
     fail_at = c.choose(n + 2, "fail_at", cost=0) - 1  # -1: no failure; k: raise instead of event k (k==n: after the last event)
     async_res = c.flag("async_resolver", cost=0)
+    # an abort signal that never fires (the library then wraps the source iterator), a root value given to subscribe()
+    passive_signal = c.flag("passive_signal", cost=0)
+    with_root = c.flag("root_value", cost=0)
     events = [pl[k][1](i) for i, k in enumerate(kinds)]
     exc = SourceFailure("source failed")
     trace = []
@@ -130,9 +133,17 @@ def scenario_map(c, schema, doc, text, source_kind, tier):
                 closed.append("aclose")
                 raise ConnectionError("closing the source failed too")
 
+        class IterableFresh:
+            """Not its own iterator: every __aiter__() call starts a new iteration from the first event."""
+
+            def __aiter__(self):
+                return ItClose()
+
         def make_source():
             if source_kind in ("agen", "awaitable_agen"):
                 return agen()
+            if source_kind == "iterable_fresh":
+                return IterableFresh()
             if source_kind == "iter_aclose":
                 return ItClose()
             if source_kind == "iter_aclose_raises":
@@ -162,7 +173,15 @@ def scenario_map(c, schema, doc, text, source_kind, tier):
         results = []
 
         async def main():
-            r = subscribe(schema, doc, field_resolver=resolver)
+            kw = {}
+            if passive_signal:
+                from graphql.pyutils import AbortController
+
+                kw["abort_signal"] = AbortController().signal
+            if with_root:
+                # the root value of the subscription is for the source resolver; every event is executed with the event as root
+                kw["root_value"] = {"ev": {"id": "ROOT", "msg": "ROOT", "fromroot": "ROOT", "nn": 0, "sub": {"msg": "ROOT", "nn": 0, "id": "ROOT"}, "echo": "ROOT"}}
+            r = subscribe(schema, doc, field_resolver=resolver, **kw)
             if hasattr(r, "__await__"):
                 r = await r
             if isinstance(r, ExecutionResult):
@@ -212,7 +231,7 @@ def scenario_map(c, schema, doc, text, source_kind, tier):
             status = "hang:" + str(e)
         late = [json.dumps(p.formatted, default=repr) for p in results]
         left = task_names(w.pending_tasks(exclude=(t,)))
-    return {"n": n, "kinds": [pl[k][0] for k in kinds], "fail_at": fail_at, "async_res": async_res, "events": events, "exc": exc,
+    return {"n": n, "kinds": [pl[k][0] for k in kinds], "fail_at": fail_at, "async_res": async_res, "passive_signal": passive_signal, "with_root": with_root, "events": events, "exc": exc,
             "out": out, "late": late, "status": status, "trace": trace, "left": left, "closed": closed}
 
 
@@ -222,7 +241,7 @@ def expected_for(schema, doc, event, variables=None):
 
 
 def check_map(obs, schema, doc, text, source_kind, res, c):
-    label = f"{text!r} source={source_kind} events={obs['kinds']} fail_at={obs['fail_at']} async_resolver={obs['async_res']} schedule={obs['trace']}"
+    label = f"{text!r} source={source_kind} events={obs['kinds']} fail_at={obs['fail_at']} async_resolver={obs['async_res']} abort_signal={obs['passive_signal']} root_value={obs['with_root']} schedule={obs['trace']}"
     payload = {"mode": "map", "doc": text, "source_kind": source_kind, "choices": list(c.choices)}
     res.evaluations += 1
     if obs["status"] != "done":
